@@ -23,7 +23,20 @@
 (*           (a key that only exists once the children have been           *)
 (*           rewritten), foreign leaves; second value from a small pool    *)
 (*           including p1's key (swap) or a wrong sort                     *)
-(*   M3      a fixed list of three-pair maps (cycles, chains).             *)
+(*   M3      a fixed list of three-pair maps (cycles, chains, pinned keys). *)
+(*   Wrap1(e) (part of M1) a compound key mapped to a term that contains it *)
+(*           (k -> k and b, k -> k + 1)                                     *)
+(*   Id1(e)  one identity pair k -> k, k any sub-term of e (depth <= 1 and  *)
+(*           the fixed family only: the result is e)                        *)
+(*   Pin(e)  two pairs one of which is an identity pair k -> k, k any       *)
+(*           sub-term of e; the other key is any other sub-term of e (a     *)
+(*           key INSIDE the pinned one, a key that contains it, a disjoint  *)
+(*           one); its value from the small pool, itself (two identity      *)
+(*           pairs), the pinned key, or a wrong sort.  Under the top-down   *)
+(*           reading k -> k is not a no-op: every occurrence of k is a      *)
+(*           maximal match that comes out as it is, so keys inside it are   *)
+(*           not replaced there.  The identity pair comes first or second   *)
+(*           (alternating with the group).  Deep expressions: 1 in SP.      *)
 (* Every expression of depth <= 1 gets all its maps (SS = 1; otherwise M2   *)
 (* for 1 in SS first pairs).  Deeper expressions                           *)
 (* are thinned deterministically: 1 in SD expressions is used; of its maps *)
@@ -35,6 +48,7 @@
 EXTENDS Subst, FiniteSets, SequencesExt
 CONSTANTS Thorough,   \* BOOLEAN: wider leaf sets and operator sets
           SS, SD, S1, SE, S2, SQ, \* thinning strides (1 = keep everything)
+          SP,         \* stride of the pinned-key maps Pin(e) of the deep expressions
           Off         \* rotation of the thinning
 
 \* ---- leaves ---------------------------------------------------------------------------
@@ -125,7 +139,12 @@ Good1(e) == UNION {{Pair(k, val) : val \in Vals(Sort(k)) \ {k}} : k \in Subterms
 BadFor   == UNION {{Pair(k, val) : val \in Bad(Sort(k))} : k \in Foreign}
 Bad1(e)  == UNION {{Pair(k, val) : val \in Bad(Sort(k))} : k \in Subterms(e)} \cup BadFor
 For1     == UNION {{Pair(k, val) : val \in Vals2(Sort(k))} : k \in Foreign}
-M1(e) == {<<p>> : p \in Good1(e) \cup Bad1(e) \cup For1}
+\* a compound key mapped to a term that contains it (leaf keys: a -> a and b, x -> x + 1 are in the pools;
+\* no compound user terms exist), and a key mapped to itself
+Wrap(k)  == IF Sort(k) = "bool" THEN Bin("and", k, B) ELSE Bin("plus", k, One)
+Wrap1(e) == {Pair(k, Wrap(k)) : k \in {t \in Subterms(e) : t.args # <<>> /\ ~IsUser(Sort(t))}}
+Id1(e)   == {<<Pair(k, k)>> : k \in Subterms(e)}
+M1(e) == {<<p>> : p \in Good1(e) \cup Bad1(e) \cup For1 \cup Wrap1(e)}
 \* second keys for a first pair p1 (sub = Subterms(e)); a key that only exists after p1 has been
 \* applied may be a division by a closed zero term, which cannot be built
 Keys2(sub, p1) == (sub \cup Subterms(p1.v) \cup {k \in {Subst(t, <<p1>>) : t \in sub} : ~ZeroDen(k)} \cup Foreign) \ {p1.k}
@@ -139,7 +158,17 @@ M2of(e, G, D) == LET sub == Subterms(e) IN
    UNION {{<<p1, p2>> : p2 \in Second(sub, p1)} : p1 \in G}
    \cup UNION {{<<p1, p2>> : p2 \in {p \in For1 : p.k # p1.k}} : p1 \in D}
 M2(e) == M2of(e, Good1(e), Bad1(e))
-M3 == {<<Pair(A, B), Pair(B, C), Pair(C, A)>>,
+\* maps with an identity pair k -> k (k pinned) and a second pair on another sub-term of e
+PinSecond(sub, k) ==
+   UNION {LET s == Sort(k2) IN
+          {Pair(k2, val) : val \in Vals2(s) \cup {k2} \cup (IF PairVerdict(k2, k) # "no" THEN {k} ELSE {}) \cup Bad(s)}
+          : k2 \in sub \ {k}}
+Pin(e, flip) == LET sub == Subterms(e) IN
+   UNION {{IF flip THEN <<p2, Pair(k, k)>> ELSE <<Pair(k, k), p2>> : p2 \in PinSecond(sub, k)} : k \in sub}
+M3 == {<<Pair(P(V), P(V)), Pair(V, LOC), Pair(A, B)>>,
+       <<Pair(X, One), Pair(Bin("plus", X, One), Bin("plus", X, One)), Pair(One, X)>>,
+       <<Pair(A, A), Pair(Bin("and", A, B), Bin("and", A, B)), Pair(B, Not(B))>>,
+       <<Pair(A, B), Pair(B, C), Pair(C, A)>>,
        <<Pair(A, B), Pair(Bin("and", B, B), C), Pair(Not(B), A)>>,
        <<Pair(V, LOC), Pair(P(LOC), A), Pair(P(V), B)>>,
        <<Pair(X, One), Pair(Bin("plus", One, One), X), Pair(One, Y)>>,
@@ -154,9 +183,12 @@ Thin(S, n, r) == IF n = 1 THEN S ELSE LET q == SetToSeq(S) IN {q[i] : i \in {j \
 MapsOf(i) ==
    LET e == ExprSeq[i]
        m3 == {m \in M3 : Hits(e, m)}
+       pin == Pin(e, (i + Off) % 2 = 0)
    IN IF i <= NShallow THEN {<<>>} \cup M1(e) \cup M2of(e, Thin(Good1(e), SS, i + Off), Thin(Bad1(e), SS, i + Off)) \cup m3
+                            \cup Id1(e) \cup Thin(pin, SS, i + Off)
       ELSE IF i <= NFixed THEN {<<>>} \cup M1(e) \cup M2of(e, Thin(Good1(e), SQ, i + Off), Thin(Bad1(e), SQ, i + Off)) \cup m3
-      ELSE Thin(M1(e), S1, i + Off)
+                               \cup Id1(e) \cup Thin(pin, SQ, i + Off)
+      ELSE Thin(M1(e), S1, i + Off) \cup Thin(pin, SP, i + Off)
            \cup (IF (i + Off) % SE = 0
                  THEN M2of(e, Thin(Good1(e), S2, i + Off), Thin(Bad1(e), S2, i + Off)) \cup m3 ELSE {})
 Groups == TLCEval([i \in DOMAIN ExprSeq |-> [e |-> ExprSeq[i], ms |-> SetToSeq(MapsOf(i))]])
